@@ -78,6 +78,10 @@ func TestC01(t *testing.T) {
 	p = c.rec.NewPart("five_token_exhaustive", "every space-joined sequence of exactly 6 atoms over the five-token-special alphabet (look-ahead token handling of the folder)", false, true, "")
 	c.EnumSeq(p, fiveAtoms, " ", 6, pick(6, 7), judge)
 
+	bnd := sqlBoundaryInputs()
+	p = c.rec.NewPart("boundary_inputs", "slot-, clip- and length-boundary inputs (see C06)", false, true, "")
+	c.ParRange(p, int64(len(bnd)), func(w *Worker, i int64) { judge(w, bnd[i]) })
+
 	// truncations: every construct cut at every offset, after 12 contexts, short and long bodies
 	var tr []string
 	tr = append(tr, sqlTruncationInputs()...)
